@@ -64,12 +64,13 @@ class RawReader:
 class ApiSession:
     """One real Client plus a raw publisher P on a free-running rig."""
 
-    def __init__(self, rig: ManagerRig, module_id=0, name=""):
+    def __init__(self, rig: ManagerRig, module_id=0, name="", logger=False):
         from pyrtma.client import Client
         warnings.simplefilter("ignore")
         self.rig = rig
+        self.logger = logger
         self.c = Client(module_id=module_id, timecode=rig.timecode, name=name)
-        self.c.connect(f"127.0.0.1:{rig.addr[1]}")
+        self.c.connect(f"127.0.0.1:{rig.addr[1]}", logger_status=logger)
         self.rd = RawReader(self.c.sock, rig.timecode)
         self.sent0 = self.c.msg_count      # frames the client has sent so far
         self.acks_seen = 0
@@ -98,7 +99,13 @@ class ApiSession:
         self.sent0 = self.c.msg_count
         self.ctl_expected += sent
         want = self.ctl_expected
-        return self.rd.wait_for(lambda fs: sum(1 for f in fs if f.msg_type == W.MT_ACK) >= want, timeout)
+        # a logger also receives copies of acknowledgements: those of other modules are told apart by their address;
+        # of its own it gets two per request (the answer and the logger copy), and the copy of its handshake's answer
+        # is still unread when connect() returns
+        me = self.c.module_id
+        if self.logger:
+            want = 1 + 2 * want
+        return self.rd.wait_for(lambda fs: sum(1 for f in fs if f.msg_type == W.MT_ACK and f.dest_mod == me) >= want, timeout)
 
     def probe(self, types, timeout=5.0):
         """publish one tagged probe per type; return the set of types that arrived at the client's socket"""
@@ -144,7 +151,7 @@ class ApiSession:
                     pass
         else:
             self.c.disconnect()
-        self.c.connect(f"127.0.0.1:{self.rig.addr[1]}")
+        self.c.connect(f"127.0.0.1:{self.rig.addr[1]}", logger_status=self.logger)
         self.rd = RawReader(self.c.sock, self.rig.timecode)
         self.sent0 = self.c.msg_count
         self.ctl_expected = 0
